@@ -310,6 +310,10 @@ def _strip_meta(o):
 
 def _run(pid, mod, tier, seed, replay, n_override, scratch, t0, violations, known_lines, notes):
     rng = random.Random((seed * 1000003) ^ int(hashlib.sha256(pid.encode()).hexdigest()[:8], 16))
+    if not replay:
+        import glob as _glob
+        for old in _glob.glob(os.path.join(VERIF, "replays", "%s-seed%d-*.json" % (pid, seed))):
+            os.remove(old)
     lean_modules = getattr(mod, "LEAN_MODULES", ["JSV.Props." + pid])
     proof_failures = []
 
@@ -422,7 +426,7 @@ def _run(pid, mod, tier, seed, replay, n_override, scratch, t0, violations, know
                     return i
             return None
         try:
-            small = shrink(dict(o), still_fails) if getattr(mod, "SHRINK", True) else o
+            small = shrink(dict(o), still_fails) if getattr(mod, "SHRINK", True) and status0 == "violation" else o
         except Exception as e:  # shrinking is best effort
             notes.append("shrink failed: %r" % (e,))
             small = o
